@@ -77,6 +77,23 @@ def rule_r1(p, res):
         # theta in the literal refers to the (possibly re-bound) parameter
         got = [[_sym(e, theta) for e in row.elts] for row in m.elts]
         if any(x is None for row in got for x in row):
+            # sign domain: an entry that is a square root (or an absolute value) can never be negative, but the sine of the
+            # angle is negative for half of all angles -- whatever the rest of the expression is, the sign of the rotation is lost
+            for row, grow in zip(m.elts, got):
+                for e, gx in zip(row.elts, grow):
+                    if gx is None:
+                        nn = [x for x in ast.walk(e) if isinstance(x, ast.Call) and (dotted(x.func) or "").split(".")[-1] in ("sqrt", "abs", "absolute", "fabs")]
+                        inner = e.operand if isinstance(e, ast.UnaryOp) and isinstance(e.op, ast.USub) else e
+                        if nn and isinstance(inner, ast.Call) and inner is nn[0]:
+                            r.violation(f, rets[0], "%s fills a matrix entry with `%s`, which is non-negative for every angle (up to the explicit sign): a sine derived this way loses its sign, "
+                                        "so negative angles and angles beyond half a turn rotate by |theta| folded into [0, pi]" % (f.short, norm(e)[:60]))
+                            break
+                else:
+                    continue
+                break
+            else:
+                raise AnalysisError("C20.R1: unrecognised entry in the matrix literal of %s: %s" % (f.short, norm(m)[:100]))
+            continue
             raise AnalysisError("C20.R1: unrecognised entry in the matrix literal of %s: %s" % (f.short, norm(m)[:100]))
         r.check(got == want, f, rets[0], "%s builds %s; a counter-clockwise (right-handed) rotation about that axis is %s" % (f.short, got, want),
                 {"function": f.short, "matrix": got})
@@ -536,4 +553,11 @@ WITNESSES = [
     Witness("C20.T1", "menpo/transform/tcoords.py", "tcoords_to_image_coords",
             "invert_unit_y.compose_before(flip_xy_yx).compose_before(Scale(np.array(image_shape) - 1))",
             "Scale(np.array(image_shape) - 1).compose_after(flip_xy_yx.compose_after(invert_unit_y))", kind="T"),
+]
+
+WITNESSES += [
+    Witness("C20.W14", "menpo/transform/homogeneous/rotation.py", "Rotation.init_from_3d_ccw_angle_around_y", "[np.cos(theta), 0, np.sin(theta)], [0, 1, 0], [-np.sin(theta), 0, np.cos(theta)]",
+            "[np.cos(theta), 0, np.sqrt(1.0 - np.cos(theta) * np.cos(theta))], [0, 1, 0], [-np.sqrt(1.0 - np.cos(theta) * np.cos(theta)), 0, np.cos(theta)]", rule="C20.R1", construct="init_from_3d_ccw_angle_around_y", note="seeded change R3-C20-A"),
+    Witness("C20.W15", "menpo/transform/tcoords.py", "", "def tcoords_to_image_coords(image_shape):", "import functools\n\n\n@functools.lru_cache(maxsize=None)\ndef tcoords_to_image_coords(image_shape):",
+            rule="C20.G3", construct="tcoords_to_image_coords", note="seeded change R3-C20-C"),
 ]
